@@ -2,12 +2,33 @@
 ;; requires: values
 (declare-fun shasPrefix (Str Str) Bool)   ; strings.HasPrefix; on valid UTF-8 the byte prefix is the character prefix
 (declare-fun sindex (Str Str) Int)        ; strings.Index: byte index of the first occurrence, -1 if none
-(declare-fun runeCount (Str) Int)         ; utf8.RuneCountInString: number of characters of valid UTF-8
 (assert (forall ((s Str) (t Str)) (! (and (<= (- 1) (sindex s t)) (=> (>= (sindex s t) 0) (<= (+ (sindex s t) (slen t)) (slen s)))) :pattern ((sindex s t)))))
-(assert (forall ((s Str)) (! (and (<= 0 (runeCount s)) (<= (runeCount s) (slen s))) :pattern ((runeCount s)))))
 ;; concat: left fold of the string() of the first n arguments
 ;; heapfn: catAll
 (declare-fun catAll (AH_Val Slice Int AH_Cursor) Str)
 (assert (forall ((hv AH_Val) (hc AH_Cursor) (s Slice)) (! (= (catAll hv s 0 hc) str_empty) :pattern ((catAll hv s 0 hc)))))
 (assert (forall ((hv AH_Val) (hc AH_Cursor) (s Slice) (k Int)) (! (=> (and (<= 0 k) (< k (slen_ s)))
    (= (catAll hv s (+ k 1) hc) (cat (catAll hv s k hc) (toStr hc (at_Val hv s k))))) :pattern ((catAll hv s (+ k 1) hc)) :pattern ((catAll hv s k hc) (at_Val hv s k)))))
+;; substring (4.2): the characters at the positions q (1-based) with first <= q < last, compared as IEEE doubles.
+;; subPre(s, k, first, last): what the first k characters of s contribute.
+(declare-fun subPre (Str Int F64 F64) Str)
+(assert (forall ((s Str) (f F64) (l F64)) (! (= (subPre s 0 f l) str_empty) :pattern ((subPre s 0 f l)))))
+(assert (forall ((s Str) (k Int) (f F64) (l F64)) (! (=> (and (<= 0 k) (< k (runeCount s)))
+   (= (subPre s (+ k 1) f l) (cat (subPre s k f l) (ite (and (fp.leq f (i2f (+ k 1))) (fp.lt (i2f (+ k 1)) l)) (runeStr (runeAt s k)) str_empty))))
+   :pattern ((subPre s (+ k 1) f l)) :pattern ((subPre s k f l) (runeAt s k)))))
+;; only IEEE comparisons look at the bounds: bounds that compare equal (or are both NaN) select the same characters
+(assert (forall ((s Str) (k Int) (f F64) (l F64) (f2 F64) (l2 F64)) (! (=> (and (or (fp.eq f f2) (and (fp.isNaN f) (fp.isNaN f2))) (or (fp.eq l l2) (and (fp.isNaN l) (fp.isNaN l2))))
+   (= (subPre s k f l) (subPre s k f2 l2))) :pattern ((subPre s k f l) (subPre s k f2 l2)))))
+;; translate (4.2): every character of s is mapped on its own - by its FIRST occurrence in `from` to the character of
+;; `to` at the same position, removed when `to` is shorter, kept when it does not occur in `from`.
+(declare-fun firstIdx (Str Int) Int)      ; index of the first occurrence of code point r among the characters of s, or -1
+(assert (forall ((s Str) (r Int)) (! (and (<= (- 1) (firstIdx s r)) (< (firstIdx s r) (runeCount s))
+    (=> (>= (firstIdx s r) 0) (= (runeAt s (firstIdx s r)) r))) :pattern ((firstIdx s r)))))
+(assert (forall ((s Str) (r Int) (j Int)) (! (=> (and (<= 0 j) (< j (runeCount s)) (or (< (firstIdx s r) 0) (< j (firstIdx s r)))) (not (= (runeAt s j) r)))
+    :pattern ((firstIdx s r) (runeAt s j)))))
+(define-fun trChar ((r Int) (from Str) (to Str)) Str
+  (ite (< (firstIdx from r) 0) (runeStr r) (ite (< (firstIdx from r) (runeCount to)) (runeStr (runeAt to (firstIdx from r))) str_empty)))
+(declare-fun trPre (Str Int Str Str) Str)
+(assert (forall ((s Str) (f Str) (t Str)) (! (= (trPre s 0 f t) str_empty) :pattern ((trPre s 0 f t)))))
+(assert (forall ((s Str) (k Int) (f Str) (t Str)) (! (=> (and (<= 0 k) (< k (runeCount s)))
+   (= (trPre s (+ k 1) f t) (cat (trPre s k f t) (trChar (runeAt s k) f t)))) :pattern ((trPre s (+ k 1) f t)) :pattern ((trPre s k f t) (runeAt s k)))))
